@@ -100,6 +100,8 @@ def check_role_feas(prog: Program, res: Result) -> None:
 
 
 def run(prog: Program, res: Result, tier: str) -> None:
+    from .. import memo
+    memo.report(prog, res)
     res.trusted += ["side seeds of sa/iso.py", "class table of flags / refiners"]
     eqrules.check_eq_class(prog, res)
     eqrules.check_eq_sym(prog, res)
